@@ -57,7 +57,7 @@ func init() {
 }
 
 func init() {
-	props["C17"] = []Stream{{"conc", genConc}, {"cleaner-commit", genCleanerCommit}}
+	props["C17"] = []Stream{{"conc", genConc}, {"cleaner-commit", genCleanerCommit}, {"recv", genRecv}}
 }
 
 func init() {
